@@ -1,6 +1,7 @@
 package main
 
 import (
+	"fmt"
 	"go/token"
 	"go/types"
 	"sort"
@@ -20,7 +21,7 @@ type sigCtx struct {
 	lift   int // how many call levels parameters may be lifted through (single static caller)
 	ops    map[string]bool
 	leaves map[string]bool
-	seen   map[ssa.Value]bool
+	seen   map[string]bool
 }
 
 var arithClass = map[string]string{
@@ -40,10 +41,12 @@ func (c *sigCtx) walk(v ssa.Value, env map[*ssa.Parameter]ssa.Value, fn *ssa.Fun
 	if v == nil || depth > 14 {
 		return
 	}
-	if c.seen[v] {
+	// context-sensitive: the same helper body is walked once per binding of its parameters
+	sk := fmt.Sprintf("%p|%p", v, env)
+	if c.seen[sk] {
 		return
 	}
-	c.seen[v] = true
+	c.seen[sk] = true
 	switch x := v.(type) {
 	case *ssa.Const:
 		if x.Value == nil {
@@ -126,6 +129,23 @@ func (c *sigCtx) walk(v ssa.Value, env map[*ssa.Parameter]ssa.Value, fn *ssa.Fun
 			c.walk(e, env, fn, depth+1)
 		}
 	case *ssa.Extract:
+		// result #i of a module helper: only that result's expression
+		if call, ok := x.Tuple.(*ssa.Call); ok {
+			if callee := call.Common().StaticCallee(); callee != nil && callee.Blocks != nil && c.w != nil && c.w.isProdFunc(callee) && depth < 8 && !isGeneratedFile(c.w.FileOf(callee.Pos())) {
+				e2 := map[*ssa.Parameter]ssa.Value{}
+				for i, p := range callee.Params {
+					if i < len(call.Common().Args) {
+						e2[p] = call.Common().Args[i]
+					}
+				}
+				for _, ret := range Returns(callee) {
+					if rv := retVals(ret); x.Index < len(rv) {
+						c.walk(rv[x.Index], e2, callee, depth+1)
+					}
+				}
+				return
+			}
+		}
 		c.walk(x.Tuple, env, fn, depth+1)
 	case *ssa.Convert:
 		c.walk(x.X, env, fn, depth+1)
@@ -201,7 +221,7 @@ func (c *sigCtx) walk(v ssa.Value, env map[*ssa.Parameter]ssa.Value, fn *ssa.Fun
 }
 
 func semSig(w *World, fn *ssa.Function, lift int, vs ...ssa.Value) string {
-	c := &sigCtx{w: w, lift: lift, ops: map[string]bool{}, leaves: map[string]bool{}, seen: map[ssa.Value]bool{}}
+	c := &sigCtx{w: w, lift: lift, ops: map[string]bool{}, leaves: map[string]bool{}, seen: map[string]bool{}}
 	for _, v := range vs {
 		c.walk(v, nil, fn, 0)
 	}
